@@ -197,6 +197,13 @@ func c03CollectFloats(v interface{}, into map[uint64]bool, depth int) {
 // c03Exec parses, validates and evaluates src; with tables=true it also evaluates every
 // sub-expression of the real tree alone to collect the floats and regex pairs the model may need.
 func c03Exec(src string, tables bool) (r c03Run) {
+	rs := c03ExecEnvs(src, tables, []parser.Scope{c03Scope()})
+	return rs
+}
+
+// c03ExecEnvs parses and validates src ONCE and evaluates the same AST once per scope, in order;
+// the outcomes are joined by "|". (tables: only with a single scope.)
+func c03ExecEnvs(src string, tables bool, scopes []parser.Scope) (r c03Run) {
 	r.floats = map[uint64]bool{}
 	r.regex = map[[2]string]bool{}
 	// one provider per process: every provider starts a cron goroutine
@@ -214,7 +221,7 @@ func c03Exec(src string, tables bool) (r c03Run) {
 		r.outcome = "INVALID"
 		return
 	}
-	vs := c03Scope()
+	vs := scopes[0]
 	if tables {
 		var walk func(n *parser.ASTNode)
 		walk = func(n *parser.ASTNode) {
@@ -241,18 +248,91 @@ func c03Exec(src string, tables bool) (r c03Run) {
 		}
 		walk(tree)
 	}
-	v, err := tree.Runtime.Eval(vs, make(map[string]interface{}), erp.NewThreadID())
-	if err == nil && tree.Name == parser.NodeASSIGN && len(tree.Children) == 2 && tree.Children[0].Name == parser.NodeIDENTIFIER {
-		name := tree.Children[0].Token.Val
-		val, _, _ := vs.GetValue(name)
-		r.outcome = "A " + hx(name) + " " + c03Value(val, 0)
-		return
+	var outs []string
+	for _, vs := range scopes {
+		v, err := tree.Runtime.Eval(vs, make(map[string]interface{}), erp.NewThreadID())
+		if err == nil && tree.Name == parser.NodeASSIGN && len(tree.Children) == 2 && tree.Children[0].Name == parser.NodeIDENTIFIER {
+			name := tree.Children[0].Token.Val
+			val, _, _ := vs.GetValue(name)
+			outs = append(outs, "A "+hx(name)+" "+c03Value(val, 0))
+			continue
+		}
+		outs = append(outs, c03Outcome(v, err))
 	}
-	r.outcome = c03Outcome(v, err)
+	r.outcome = strings.Join(outs, "|")
 	return
 }
 
+// ---- environments of the multi-evaluation cases: <name>=<value>;… with canonical values
+
+// c03ParseValue decodes a canonical value (n t f N<bits> Nnan S<hex> L(v,…)); returns the rest.
+func c03ParseValue(s string) (interface{}, string) {
+	switch {
+	case strings.HasPrefix(s, "Nnan"):
+		return math.NaN(), s[4:]
+	case strings.HasPrefix(s, "N"):
+		b, err := strconv.ParseUint(s[1:17], 16, 64)
+		if err != nil {
+			panic("bad value " + s)
+		}
+		return math.Float64frombits(b), s[17:]
+	case strings.HasPrefix(s, "S"):
+		i := 1
+		for i < len(s) && s[i] != ',' && s[i] != ')' && s[i] != ';' {
+			i++
+		}
+		return unhx(s[1:i]), s[i:]
+	case strings.HasPrefix(s, "L("):
+		rest := s[2:]
+		var l []interface{} // an empty list is a nil slice, as the value of the literal [] is
+		for !strings.HasPrefix(rest, ")") {
+			var v interface{}
+			v, rest = c03ParseValue(rest)
+			l = append(l, v)
+			rest = strings.TrimPrefix(rest, ",")
+		}
+		return l, rest[1:]
+	case strings.HasPrefix(s, "n"):
+		return nil, s[1:]
+	case strings.HasPrefix(s, "t"):
+		return true, s[1:]
+	case strings.HasPrefix(s, "f"):
+		return false, s[1:]
+	}
+	panic("bad value " + s)
+}
+
+func c03EnvScope(env string) parser.Scope {
+	vs := newGlobalScope()
+	if env == "-" {
+		return vs
+	}
+	for _, b := range strings.Split(env, ";") {
+		i := strings.Index(b, "=")
+		v, _ := c03ParseValue(b[i+1:])
+		vs.SetValue(b[:i], v)
+	}
+	return vs
+}
+
+// c03PayloadEnvs: payload of a multi-evaluation case: "M " + the usual fields (tables = union over
+// the environments, each collected on a FRESH parse) + the environments joined by "|".
+func c03PayloadEnvs(src string, envs []string) string {
+	base := strings.Fields(c03PayloadWith(src, func() []parser.Scope {
+		var l []parser.Scope
+		for _, e := range envs {
+			l = append(l, c03EnvScope(e))
+		}
+		return l
+	}, envs))
+	return "M " + strings.Join(base, " ") + " " + strings.Join(envs, "|")
+}
+
 func c03Payload(src string) string {
+	return c03PayloadWith(src, func() []parser.Scope { return []parser.Scope{c03Scope()} }, nil)
+}
+
+func c03PayloadWith(src string, scopes func() []parser.Scope, envs []string) string {
 	toks := parser.LexToList("t", src)
 	var tl []string
 	for _, t := range toks {
@@ -276,10 +356,27 @@ func c03Payload(src string) string {
 		// a panic of the real code while the tables are collected is not the generator's business:
 		// the case is executed again (in Run) where it is reported as PANIC
 		defer func() { recover() }()
-		run = c03Exec(src, true)
+		for _, vs := range scopes() {
+			one := c03ExecEnvs(src, true, []parser.Scope{vs}) // fresh parse per environment
+			for k := range one.floats {
+				run.floats[k] = true
+			}
+			for k := range one.regex {
+				run.regex[k] = true
+			}
+		}
 	}()
 	for _, f := range c03EnvFloats {
 		run.floats[math.Float64bits(f)] = true
+	}
+	for _, e := range envs {
+		if e == "-" {
+			continue
+		}
+		for _, b := range strings.Split(e, ";") {
+			v, _ := c03ParseValue(b[strings.Index(b, "=")+1:])
+			c03CollectFloats(v, run.floats, 0)
+		}
 	}
 	var fl []string
 	for b := range run.floats {
@@ -315,8 +412,18 @@ func init() {
 		Timeout: 30 * time.Second,
 		Gen:     c03Gen,
 		Run: func(payload string) string {
-			src := unhx(strings.SplitN(payload, " ", 2)[0])
-			r := c03Exec(src, false)
+			var r c03Run
+			if strings.HasPrefix(payload, "M ") {
+				f := strings.Fields(payload)
+				var scopes []parser.Scope
+				for _, e := range strings.Split(f[len(f)-1], "|") {
+					scopes = append(scopes, c03EnvScope(e))
+				}
+				r = c03ExecEnvs(unhx(f[1]), false, scopes)
+				CountRun("multi-evaluation of one AST")
+			} else {
+				r = c03Exec(unhx(strings.SplitN(payload, " ", 2)[0]), false)
+			}
 			switch {
 			case r.tree == "PARSEERR":
 				CountRun("parse error")
@@ -455,6 +562,7 @@ type c03G struct {
 	g      *Gen
 	r      *Rand
 	layout bool
+	vars   [5][]string // multi-evaluation cases: variables by intended kind
 }
 
 func (x *c03G) pick(xs []string) string { return xs[x.r.Intn(len(xs))] }
@@ -463,6 +571,9 @@ func (x *c03G) pick(xs []string) string { return xs[x.r.Intn(len(xs))] }
 func (x *c03G) atom(kind int) []string {
 	if kind >= 5 {
 		kind = x.r.Intn(5)
+	}
+	if len(x.vars[kind]) > 0 && x.r.Intn(10) < 7 {
+		return []string{x.pick(x.vars[kind])}
 	}
 	a := x.pick(c03Kinds[kind])
 	if kind == 4 && a[0] == '[' {
@@ -730,6 +841,96 @@ func c03Gen(g *Gen) {
 		emit("assign", "r := "+q+" 1 + 2")
 		emit("assign", "r := "+q+" true and false")
 	}
+	// multi-evaluation: ONE parsed AST evaluated under several environments in a row (every
+	// variable rebound in between) — the value may depend on the current environment only,
+	// never on an earlier evaluation of the same node (no per-node caching)
+	emitM := func(class, src string, envs []string) {
+		key := "M " + src + " " + strings.Join(envs, "|")
+		if seen[key] {
+			return
+		}
+		seen[key] = true
+		g.Count(class)
+		idx++
+		if idx%sn != si || idx < start {
+			g.Emit("-")
+			return
+		}
+		g.Emit(c03PayloadEnvs(src, envs))
+	}
+	S := func(v string) string { return "S" + hx(v) }
+	emitM("multi-corpus", "s like p", []string{"s=" + S("banana") + ";p=" + S("^a"), "s=" + S("banana") + ";p=" + S("^b"),
+		"s=" + S("apple") + ";p=" + S("^b"), "s=" + S("apple") + ";p=" + S("p{3}"), "s=" + S("apple") + ";p=" + S("(")})
+	emitM("multi-corpus", `"banana" like p`, []string{"p=" + S("^a"), "p=" + S("^b"), "p=" + S("an"), "p=n"})
+	emitM("multi-corpus", "not ( s like p ) or s like q", []string{"s=" + S("a") + ";p=" + S("a") + ";q=" + S("b"),
+		"s=" + S("b") + ";p=" + S("a") + ";q=" + S("b"), "s=" + S("c") + ";p=" + S("c") + ";q=" + S("c")})
+	mvals := [5][]string{
+		{"N0000000000000000", "N3ff0000000000000", "N4000000000000000", "Nc004000000000000", "N3fe0000000000000", "N4024000000000000",
+			"N4059000000000000", "N7fe1ccf385ebc8a0", "Nbff0000000000000", "N401c000000000000", "N4008000000000000"},
+		{S(""), S("a"), S("x"), S("abc"), S("banana"), S("apple"), S("10"), S("9"), S("^a"), S("^b"), S("p{3}"), S("("), S("a.c"), S("true"), S("[1 x]"), S("an")},
+		{"t", "f"},
+		{"n"},
+		{"L()", "L(N3ff0000000000000," + S("x") + ")", "L(L(N3ff0000000000000))", "L(N3ff0000000000000,N4000000000000000,N4008000000000000)",
+			"L(n)", "L(" + S("10") + ",N4024000000000000)", "L(t,f)", "L(" + S("banana") + "," + S("a") + ")"},
+	}
+	anyVal := func() string { k := r.Intn(5); return mvals[k][r.Intn(len(mvals[k]))] }
+	// every operator on two variables, environments over the whole universe
+	nPer := 12
+	if g.Thorough() {
+		nPer = 60
+	}
+	for _, o := range c03BinOps {
+		for i := 0; i < nPer; i++ {
+			var envs []string
+			ka, kb := r.Intn(5), r.Intn(5)
+			for k := 0; k < 4; k++ {
+				a, b := mvals[ka][r.Intn(len(mvals[ka]))], mvals[kb][r.Intn(len(mvals[kb]))]
+				if r.Intn(4) == 0 {
+					a = anyVal()
+				}
+				if r.Intn(4) == 0 {
+					b = anyVal()
+				}
+				envs = append(envs, "v="+a+";w="+b)
+			}
+			emitM("multi-single-op", "v "+o+" w", envs)
+		}
+	}
+	for _, q := range c03PreOps {
+		for i := 0; i < nPer; i++ {
+			emitM("multi-single-op", q+" v", []string{"v=" + anyVal(), "v=" + anyVal(), "v=" + anyVal(), "v=" + anyVal()})
+		}
+	}
+	// random typed trees over variables of a fixed intended kind; each environment gives every
+	// variable a value of its kind (mostly) or of any kind
+	nMulti := 1500
+	if g.Thorough() {
+		nMulti = 40000
+	}
+	pool := []string{"a", "b", "c", "d", "l", "n", "s", "f", "m", "p", "q", "v", "w"}
+	for i := 0; i < nMulti; i++ {
+		xm := &c03G{g: g, r: r}
+		kindOf := map[string]int{}
+		for _, v := range pool {
+			k := []int{0, 0, 1, 1, 1, 2, 2, 3, 4, 4}[r.Intn(10)]
+			kindOf[v] = k
+			xm.vars[k] = append(xm.vars[k], v)
+		}
+		toks := xm.expr([]int{0, 2, 2, 2, 5}[r.Intn(5)], 1+r.Intn(4))
+		var envs []string
+		for k := 0; k < 2+r.Intn(3); k++ {
+			var bs []string
+			for _, v := range pool {
+				val := mvals[kindOf[v]][r.Intn(len(mvals[kindOf[v]]))]
+				if r.Intn(8) == 0 {
+					val = anyVal()
+				}
+				bs = append(bs, v+"="+val)
+			}
+			envs = append(envs, strings.Join(bs, ";"))
+		}
+		emitM("multi-random", strings.Join(toks, " "), envs)
+	}
 	// random trees to depth 6, random parentheses, random layout
 	nRandom := 9000
 	if g.Thorough() {
@@ -784,61 +985,135 @@ func c03ExprName(e ast.Expr) string {
 	return "?"
 }
 
-// c03RunArg finds the first call p.run(arg) in the body of function name and returns
-// (usesSelfBinding, constant): arg is either N or self.binding or self.binding + N.
-func c03RunArg(file *ast.File, name string) (bool, int, error) {
-	for _, d := range file.Decls {
-		fd, ok := d.(*ast.FuncDecl)
-		if !ok || fd.Name.Name != name || fd.Recv != nil {
-			continue
-		}
-		var arg ast.Expr
-		ast.Inspect(fd.Body, func(n ast.Node) bool {
-			if c, ok := n.(*ast.CallExpr); ok && arg == nil {
-				if se, ok := c.Fun.(*ast.SelectorExpr); ok && se.Sel.Name == "run" && len(c.Args) == 1 {
-					arg = c.Args[0]
+// c03Consts evaluates integer constant expressions of package parser: literals, package-level
+// constants (resolved recursively), + - * / %, unary -/+, parentheses, conversions int(x).
+type c03Consts struct {
+	decl map[string]ast.Expr
+}
+
+func c03LoadConsts(files []*ast.File) *c03Consts {
+	c := &c03Consts{decl: map[string]ast.Expr{}}
+	for _, f := range files {
+		for _, d := range f.Decls {
+			gd, ok := d.(*ast.GenDecl)
+			if !ok || gd.Tok != token.CONST {
+				continue
+			}
+			for _, sp := range gd.Specs {
+				vs, ok := sp.(*ast.ValueSpec)
+				if !ok {
+					continue
 				}
-			}
-			return true
-		})
-		if arg == nil {
-			return false, 0, fmt.Errorf("%s: no call of p.run", name)
-		}
-		isSelfBinding := func(e ast.Expr) bool {
-			se, ok := e.(*ast.SelectorExpr)
-			if !ok || se.Sel.Name != "binding" {
-				return false
-			}
-			id, ok := se.X.(*ast.Ident)
-			return ok && id.Name == "self"
-		}
-		switch x := arg.(type) {
-		case *ast.BasicLit:
-			n, err := strconv.Atoi(x.Value)
-			return false, n, err
-		case *ast.SelectorExpr:
-			if isSelfBinding(x) {
-				return true, 0, nil
-			}
-		case *ast.BinaryExpr:
-			if x.Op == token.SUB {
-				if lit, ok := x.Y.(*ast.BasicLit); ok && isSelfBinding(x.X) {
-					n, err := strconv.Atoi(lit.Value)
-					return true, -n, err
-				}
-			}
-			if x.Op == token.ADD {
-				if lit, ok := x.Y.(*ast.BasicLit); ok && isSelfBinding(x.X) {
-					n, err := strconv.Atoi(lit.Value)
-					return true, n, err
-				}
-				if lit, ok := x.X.(*ast.BasicLit); ok && isSelfBinding(x.Y) {
-					n, err := strconv.Atoi(lit.Value)
-					return true, n, err
+				for i, n := range vs.Names {
+					if i < len(vs.Values) {
+						c.decl[n.Name] = vs.Values[i]
+					}
 				}
 			}
 		}
-		return false, 0, fmt.Errorf("%s: argument of p.run not understood", name)
+	}
+	return c
+}
+
+// linear evaluates e to coef*self.binding + k (coef 0 for a plain constant)
+func (c *c03Consts) linear(e ast.Expr, depth int) (coef, k int, ok bool) {
+	if depth > 50 {
+		return 0, 0, false
+	}
+	switch x := e.(type) {
+	case *ast.BasicLit:
+		if x.Kind != token.INT {
+			return 0, 0, false
+		}
+		n, err := strconv.ParseInt(x.Value, 0, 64)
+		return 0, int(n), err == nil
+	case *ast.Ident:
+		if d, found := c.decl[x.Name]; found {
+			return c.linear(d, depth+1)
+		}
+		return 0, 0, false
+	case *ast.ParenExpr:
+		return c.linear(x.X, depth+1)
+	case *ast.SelectorExpr:
+		if id, isID := x.X.(*ast.Ident); isID && id.Name == "self" && x.Sel.Name == "binding" {
+			return 1, 0, true
+		}
+		return 0, 0, false
+	case *ast.CallExpr:
+		if id, isID := x.Fun.(*ast.Ident); isID && len(x.Args) == 1 && (id.Name == "int" || id.Name == "int64" || id.Name == "int32") {
+			return c.linear(x.Args[0], depth+1)
+		}
+		return 0, 0, false
+	case *ast.UnaryExpr:
+		a, b, ok := c.linear(x.X, depth+1)
+		if !ok {
+			return 0, 0, false
+		}
+		switch x.Op {
+		case token.SUB:
+			return -a, -b, true
+		case token.ADD:
+			return a, b, true
+		}
+		return 0, 0, false
+	case *ast.BinaryExpr:
+		a1, b1, ok1 := c.linear(x.X, depth+1)
+		a2, b2, ok2 := c.linear(x.Y, depth+1)
+		if !ok1 || !ok2 {
+			return 0, 0, false
+		}
+		switch x.Op {
+		case token.ADD:
+			return a1 + a2, b1 + b2, true
+		case token.SUB:
+			return a1 - a2, b1 - b2, true
+		case token.MUL:
+			if a1 == 0 {
+				return b1 * a2, b1 * b2, true
+			}
+			if a2 == 0 {
+				return a1 * b2, b1 * b2, true
+			}
+		case token.QUO:
+			if a1 == 0 && a2 == 0 && b2 != 0 {
+				return 0, b1 / b2, true
+			}
+		case token.REM:
+			if a1 == 0 && a2 == 0 && b2 != 0 {
+				return 0, b1 % b2, true
+			}
+		}
+	}
+	return 0, 0, false
+}
+
+// c03RunArg finds the first call p.run(arg) in the body of function name (any file of the
+// package) and returns (usesSelfBinding, constant): arg evaluates to N or to self.binding + N.
+func c03RunArg(files []*ast.File, consts *c03Consts, name string) (bool, int, error) {
+	for _, file := range files {
+		for _, d := range file.Decls {
+			fd, ok := d.(*ast.FuncDecl)
+			if !ok || fd.Name.Name != name || fd.Recv != nil || fd.Body == nil {
+				continue
+			}
+			var arg ast.Expr
+			ast.Inspect(fd.Body, func(n ast.Node) bool {
+				if c, ok := n.(*ast.CallExpr); ok && arg == nil {
+					if se, ok := c.Fun.(*ast.SelectorExpr); ok && se.Sel.Name == "run" && len(c.Args) == 1 {
+						arg = c.Args[0]
+					}
+				}
+				return true
+			})
+			if arg == nil {
+				return false, 0, fmt.Errorf("%s: no call of p.run", name)
+			}
+			coef, k, ok := consts.linear(arg, 0)
+			if !ok || (coef != 0 && coef != 1) {
+				return false, 0, fmt.Errorf("%s: argument of p.run cannot be evaluated", name)
+			}
+			return coef == 1, k, nil
+		}
 	}
 	return false, 0, fmt.Errorf("function %s not found", name)
 }
@@ -849,23 +1124,44 @@ func c03Extract(args []string) int {
 		return 2
 	}
 	fset := token.NewFileSet()
-	file, err := goparser.ParseFile(fset, filepath.Join(repoDir(), "parser", "parser.go"), nil, 0)
-	if err != nil {
-		fmt.Fprintln(os.Stderr, err)
-		return 1
+	names, _ := filepath.Glob(filepath.Join(repoDir(), "parser", "*.go"))
+	sort.Strings(names)
+	var files []*ast.File
+	for _, n := range names {
+		if strings.HasSuffix(n, "_test.go") {
+			continue
+		}
+		f, err := goparser.ParseFile(fset, n, nil, 0)
+		if err != nil {
+			fmt.Fprintln(os.Stderr, err)
+			return 1
+		}
+		files = append(files, f)
 	}
+	consts := c03LoadConsts(files)
 	fields := []string{"Name", "Token", "Meta", "Children", "Runtime", "binding", "nullDenotation", "leftDenotation"}
 	entries := map[string]c03Entry{}
 	nmaps := 0
-	ast.Inspect(file, func(n ast.Node) bool {
-		as, ok := n.(*ast.AssignStmt)
-		if !ok || len(as.Lhs) != 1 || len(as.Rhs) != 1 {
+	visit := func(n ast.Node) bool {
+		var rhs ast.Expr
+		switch x := n.(type) {
+		case *ast.AssignStmt:
+			if len(x.Lhs) != 1 || len(x.Rhs) != 1 {
+				return true
+			}
+			if id, ok := x.Lhs[0].(*ast.Ident); !ok || id.Name != "astNodeMap" {
+				return true
+			}
+			rhs = x.Rhs[0]
+		case *ast.ValueSpec:
+			if len(x.Names) != 1 || x.Names[0].Name != "astNodeMap" || len(x.Values) != 1 {
+				return true
+			}
+			rhs = x.Values[0]
+		default:
 			return true
 		}
-		if id, ok := as.Lhs[0].(*ast.Ident); !ok || id.Name != "astNodeMap" {
-			return true
-		}
-		cl, ok := as.Rhs[0].(*ast.CompositeLit)
+		cl, ok := rhs.(*ast.CompositeLit)
 		if !ok {
 			return true
 		}
@@ -893,9 +1189,9 @@ func c03Extract(args []string) int {
 				e.node = c03ExprName(v)
 			}
 			if v, ok := vals["binding"]; ok {
-				b, err := strconv.Atoi(c03ExprName(v))
-				if err != nil {
-					fmt.Fprintln(os.Stderr, "binding of", key, "is not an integer literal")
+				coef, b, ok := consts.linear(v, 0)
+				if !ok || coef != 0 || b < 0 {
+					fmt.Fprintln(os.Stderr, "binding of", key, "cannot be evaluated to a constant")
 					b = -1
 				}
 				e.binding = b
@@ -909,7 +1205,10 @@ func c03Extract(args []string) int {
 			entries[key] = e
 		}
 		return true
-	})
+	}
+	for _, f := range files {
+		ast.Inspect(f, visit)
+	}
 	if nmaps != 1 {
 		fmt.Fprintln(os.Stderr, "expected exactly one assignment to astNodeMap, found", nmaps)
 		return 1
@@ -919,10 +1218,10 @@ func c03Extract(args []string) int {
 			return 1
 		}
 	}
-	preSelf, preN, err1 := c03RunArg(file, "ndPrefix")
-	inSelf, inN, err2 := c03RunArg(file, "ldInfix")
-	innerSelf, innerN, err3 := c03RunArg(file, "ndInner")
-	listSelf, listN, err4 := c03RunArg(file, "ndList")
+	preSelf, preN, err1 := c03RunArg(files, consts, "ndPrefix")
+	inSelf, inN, err2 := c03RunArg(files, consts, "ldInfix")
+	innerSelf, innerN, err3 := c03RunArg(files, consts, "ndInner")
+	listSelf, listN, err4 := c03RunArg(files, consts, "ndList")
 	for _, e := range []error{err1, err2, err3, err4} {
 		if e != nil {
 			fmt.Fprintln(os.Stderr, e)
